@@ -33,8 +33,11 @@ pub enum LineKind {
     BadAt,
     BadNonAscii,
     BadString,
+    CharLiteral,
+    BadUnclosedChar,
+    BadCharEscape,
 }
-pub const KINDS: [LineKind; 14] = [
+pub const KINDS: [LineKind; 17] = [
     LineKind::Inst,
     LineKind::LabelInst,
     LineKind::Label,
@@ -49,6 +52,9 @@ pub const KINDS: [LineKind; 14] = [
     LineKind::BadAt,
     LineKind::BadNonAscii,
     LineKind::BadString,
+    LineKind::CharLiteral,
+    LineKind::BadUnclosedChar,
+    LineKind::BadCharEscape,
 ];
 
 impl LineKind {
@@ -62,6 +68,8 @@ impl LineKind {
                 | LineKind::BadAt
                 | LineKind::BadNonAscii
                 | LineKind::BadString
+                | LineKind::BadUnclosedChar
+                | LineKind::BadCharEscape
         )
     }
     pub fn has_content(self) -> bool {
@@ -83,6 +91,9 @@ impl LineKind {
             LineKind::BadAt => "bad-at-sign",
             LineKind::BadNonAscii => "bad-non-ascii",
             LineKind::BadString => "bad-unterminated-string",
+            LineKind::CharLiteral => "char-literal",
+            LineKind::BadUnclosedChar => "bad-unclosed-char",
+            LineKind::BadCharEscape => "bad-char-escape",
         }
     }
     /// text of the line; `i` makes labels unique
@@ -102,6 +113,9 @@ impl LineKind {
             LineKind::BadAt => "    @ t0".into(),
             LineKind::BadNonAscii => "    \u{e9}t\u{e9} t0".into(),
             LineKind::BadString => "    .asciz \"unterminated".into(),
+            LineKind::CharLiteral => "    li a0, 'A'".into(),
+            LineKind::BadUnclosedChar => "    li a0, 'A".into(),
+            LineKind::BadCharEscape => "    li a0, '\\q'".into(),
         }
     }
 }
@@ -394,8 +408,8 @@ impl Property for C07 {
     }
     fn info(&self, tier: Tier) -> Info {
         Info {
-            rule: "all files of 1..m lines over 14 line kinds (instruction, label+instruction, label, .word list, .asciz, comment, blank; wrong operand kind, missing operand, unknown mnemonic, stray '(', stray '@', non-ASCII word, unterminated string) x {LF, CRLF} x {final newline, none} x {one file, tail in an included file}; coverage: every line with content is the line (by raw offset, via the harness's locator) of a node or a parse error and good lines draw no error; containment: deleting a bad line leaves the nodes/errors of every other line unchanged. Non-trivial = files with at least one bad and one good content line".into(),
-            bounds: json!({"max_lines": self.space(tier).max, "line_kinds": 14, "variants_per_sequence": 8}),
+            rule: "all files of 1..m lines over 17 line kinds (instruction, label+instruction, label, .word list, .asciz, comment, blank, character literal; wrong operand kind, missing operand, unknown mnemonic, stray '(', stray '@', non-ASCII word, unterminated string, unclosed character literal, invalid character escape) x {LF, CRLF} x {final newline, none} x {one file, tail in an included file}; coverage: every line with content is the line (by raw offset, via the harness's locator) of a node or a parse error and good lines draw no error; containment: deleting a bad line leaves the nodes/errors of every other line unchanged. Non-trivial = files with at least one bad and one good content line".into(),
+            bounds: json!({"max_lines": self.space(tier).max, "line_kinds": 17, "variants_per_sequence": 8}),
             assumptions: vec!["lines are attributed through raw offsets, so the line/column defects of C09 do not contaminate this check".into()],
             states_counter: "cases",
             transitions_counter: "lines_checked",
